@@ -19,6 +19,7 @@ EXPLANATION = (
     "opens the state point file for writing directly; save-if-absent and validate-after-write hold (C02-b, C02-c); "
     "(c) documents are written atomically (C10-a/b); (d) the job listing does not raise when the workspace directory is "
     "missing or being created."
+    ' (e) No caller makes Job.init() conditional on an existence test of the job directory.'
 )
 UNDECIDED = ("Interleavings are not explored: freedom from races, 'every process completes without error' and the final "
              "content being that of some sequential execution are not decided.")
